@@ -321,7 +321,7 @@ theorem partial_prefix_number_nf (o : POpts) (s : List Nat) (fv : Bool) (x : Num
 
 /-- `partial_prefix`, special results: needs the exclusion of class (iii) (`SpecialHeadsOK`) -/
 theorem partial_prefix_special_nf (o : POpts) (s : List Nat) (fv : Bool) (sp : Special) (ng : Bool) (cnt : Nat)
-    (hrad : c.feats.powerOfTwo = false → c.mantissaRadix ≤ 10) (hh : SpecialHeadsOK c o)
+    (hr : 1 ≤ c.mantissaRadix) (hrad : c.feats.powerOfTwo = false → c.mantissaRadix ≤ 10) (hh : SpecialHeadsOK c o)
     (h : parseFloatSyntax c o true s fv = .ok (.special sp ng cnt)) :
     parseFloatSyntax c o false (s.take cnt) fv = .ok (.special sp ng cnt) := by
   rw [parseFloatSyntax_eq] at h ⊢
@@ -347,11 +347,10 @@ theorem partial_prefix_special_nf (o : POpts) (s : List Nat) (fv : Bool) (sp : S
       rw [afterSign_trunc hf hd s ng b ha cnt hidx]
       simp only [Bool.false_eq_true, if_false]
       have hb := PNTotal.notFormat_bytesContig (c := c) hf
-      have hpre : c.basePrefix = 0 := by simp [Cfg.basePrefix, hf]
       have hm := requiredMantissaDigits_nf hf hd
       have hvt : (trunc cnt b).index ≤ (trunc cnt b).slc.length := by
         simp only [trunc_slc, trunc_index, List.length_take]; omega
-      have hnot := parseNumber_not_ok_of_special hb false o (trunc cnt b) ng fv sp cnt hh hrad hpre hm hpt
+      have hnot := parseNumber_not_ok_of_special hb false o (trunc cnt b) ng fv sp cnt hh hrad hr hm hpt
       have htot := PNTotal.parseNumber_tot (rel_nf hf hd) false o (trunc cnt b) ng fv hvt
       have hlen : (trunc cnt b).slc.length = cnt := by
         simp only [trunc_slc, List.length_take]; omega
@@ -378,7 +377,7 @@ theorem partial_prefix_nf (o : POpts) (s : List Nat) (fv : Bool) (p : Parsed)
     parseFloatSyntax c o false (s.take (pcount p)) fv = .ok p := by
   cases p with
   | number x cnt => exact partial_prefix_number_nf hf hd o s fv x cnt hr h
-  | special sp ng cnt => exact partial_prefix_special_nf hf hd o s fv sp ng cnt hrad hh h
+  | special sp ng cnt => exact partial_prefix_special_nf hf hd o s fv sp ng cnt hr hrad hh h
   | zero n =>
     exfalso
     rw [parseFloatSyntax_eq] at h
